@@ -103,7 +103,9 @@ Theorem e2e_sample_pcm wo ch total w chunks f :
     FlacCodec.Ast.si_total (conv_si (f_si f)) = EP.blocks_samples blocks /\
     FlacCodec.Ast.si_channels (conv_si (f_si f)) = ch /\ EP.blocks_samples blocks < 2 ^ 36 /\
     (* C02: the strict stream validator accepts the finished file and yields the same blocks *)
-    FlacCodec.Spec.spec_stream (f_stream f) = Ok (conv_si (f_si f), blocks).
+    FlacCodec.Spec.spec_stream (f_stream f) = Ok (conv_si (f_si f), blocks) /\
+    (* the Encoder calls behind the run *)
+    reach o L p rate bps (sw_enc w) blocks (f_enc f).
 Proof.
   intros Hwf Hnew Hrun Hfits Hlen36.
   pose proof (sample_new_wf p [] wo rate bps ch total w Hwf Hnew) as Hsw.
@@ -213,7 +215,7 @@ Proof.
     - unfold FlacCodec.Header.MAX_FRAME_NUMBER. change (2 ^ 36 - 1 + 1) with (2 ^ 36). lia.
     - lia.
     - fold bs. lia. }
-  exists (bl1 ++ lastbl). split; [exact Hdec|]. split; [|split; [exact Hok|split; [exact Hshape|split; [exact Htot|split; [exact Ssc|split; [lia|exact Hspec]]]]]].
+  exists (bl1 ++ lastbl). split; [exact Hdec|]. split; [|split; [exact Hok|split; [exact Hshape|split; [exact Htot|split; [exact Ssc|split; [lia|split; [exact Hspec|cbn [sw_enc]; rewrite Ef; exact Hr]]]]]]].
   rewrite Hcat, concat_app, Hwc.
     (* concat cs ++ the whole PCM frames of the rest = the whole PCM frames of everything *)
     assert (Lcs : length (concat cs) = (k * length cs)%nat).
